@@ -34,7 +34,7 @@ def fmtEnt (e : Ent) : String :=
 def fmtDump (l : Lsm) : String :=
   let lv := (zipIdx l.levels).filter (fun (_, ts) => !ts.isEmpty)
   let parts := lv.map (fun (i, ts) =>
-    s!"L{i}" ++ String.join (ts.map (fun t => "[" ++ String.intercalate "," (t.ents.map fmtEnt) ++ "]")))
+    s!"L{i}" ++ String.join (ts.map (fun t => s!"[#{t.id} " ++ String.intercalate "," (t.ents.map fmtEnt) ++ "]")))
   let mem := "M[" ++ String.intercalate "," (l.mem.map fmtEnt) ++ "]"
   String.intercalate " " (mem :: parts)
 
@@ -111,25 +111,54 @@ def mvccStep (d : Db) (line : String) : Db × String :=
         (d, "items " ++ String.intercalate ";" (items.map (fun e => fmtItem d.now e e.ver)))
       | _, _ => (d, "err:discarded")
     | none => (d, "bad-op")
-  | ["flush"] => ({ d with lsm := d.lsm.flush }, "ok")
+  | "flush" :: rest =>
+    let kv := kvArgs rest
+    ({ d with lsm := d.lsm.flush (argNat kv "id" 0) }, "ok")
   | ["setdiscard", ts] =>
     match ts.toNat? with
     | some ts => (({ d with discardTs := ts } : Db).cleanup, "ok")
     | none => (d, "bad-op")
   | "compact" :: rest =>
+    -- tables are named by file id; `new=id:count,…` are the tables the implementation produced
     let kv := kvArgs rest
+    let thisL := argNat kv "this" 0
+    let nextL := argNat kv "next" 0
+    let idxOf (lvl : Nat) (id : Nat) : Option Nat :=
+      ((zipIdx (d.lsm.levels.getD lvl [])).find? (fun (_, t) => t.id == id)).map (·.1)
+    let topIds := natList (argStr kv "top")
+    let botIds := natList (argStr kv "bot")
+    let top := topIds.filterMap (idxOf thisL)
+    let bot := botIds.filterMap (idxOf nextL)
+    let news := (if argStr kv "new" == "" then [] else (argStr kv "new").splitOn ",").filterMap (fun w =>
+      match w.splitOn ":" with
+      | [i, c] => match i.toNat?, c.toNat? with
+        | some i, some c => some (i, c)
+        | _, _ => none
+      | _ => none)
+    if top.length != topIds.length || bot.length != botIds.length then
+      (d, s!"mismatch tables-not-found this={thisL} next={nextL}")
+    else
     let cd : CompactDef := {
-      thisLevel := argNat kv "this" 0, nextLevel := argNat kv "next" 0,
-      top := natList (argStr kv "top"), bot := natList (argStr kv "bot"),
-      outSizes := natList (argStr kv "out"), dropPrefixes := hexList (argStr kv "drop") }
+      thisLevel := thisL, nextLevel := nextL, top, bot,
+      outSizes := news.map (·.2), outIds := news.map (·.1), dropPrefixes := hexList (argStr kv "drop") }
     let dts := d.discardAtOrBelow
+    let (out, ov) := compactOutput d.lsm cd dts d.opts.numKeep d.now
     match d.lsm.compact cd dts d.opts.numKeep d.now with
-    | some l => ({ d with lsm := l }, s!"ok discard={dts}")
+    | some l => ({ d with lsm := l }, s!"ok discard={dts} overlap={if ov then 1 else 0}")
     | none =>
-      let (out, ov) := compactOutput d.lsm cd dts d.opts.numKeep d.now
       (d, s!"mismatch discard={dts} overlap={ov} model-out={out.length} " ++
           String.intercalate "," (out.map fmtEnt))
   | "compact-none" :: _ => (d, "none")
+  -- DropPrefix itself only blocks writes and flushes the memtables unfiltered; the flush and
+  -- the prefix-dropping compactions arrive as their own `flush`/`compact … drop=` lines
+  -- (`filterPrefixesToDrop` runs one read-only `View` per prefix: a begin/done pair on the read mark)
+  | "dropprefix" :: ps =>
+    let d := ps.foldl (fun (d : Db) _ =>
+      if d.opts.managed then d else
+      let rts := d.nextTs - 1
+      { d with readMark := (d.readMark.begin rts).done rts }) d
+    (d, "ok")
+  | ["dropall"] => ({ d with lsm := Lsm.init d.opts.maxLevels }, "ok")
   | ["dump"] => (d, fmtDump d.lsm)
   | ["discardts"] => (d, toString d.discardAtOrBelow)
   | _ => (d, "bad-op")
